@@ -74,7 +74,8 @@ func (w *World) advanceClock() bool {
 		return true
 	}
 	// AfterFunc: runs in its own goroutine
-	g := &G{wake: make(chan struct{}, 1), dead: make(chan struct{}, 1), Site: "timer", ID: "0.t" + itoa(t.seq)}
+	g := &G{wake: make(chan struct{}, 1), dead: make(chan struct{}, 1), Site: "timer", ID: "0.t" + itoa(t.seq), path: []int32{0, 1 << 20, int32(t.seq)}}
+	g.idh = hashStr(g.ID)
 	g.hash = mix(0x71, uint64(t.seq), uint64(w.now))
 	w.gs = append(w.gs, g)
 	w.launch(g, t.fn)
